@@ -145,11 +145,15 @@ theorem good_stepRun (s : St) (h : Inv s) : Good s (stepRun s) := by
 
 /-! ## steps -/
 
+/-- the generated shape facts say the re-check is there (breaks when the extractor no longer finds the
+tombstone re-check inside the storage-creating transaction) -/
+theorem recheck_on : recheck = true := by decide
+
 theorem createCheck_ok (s : St) (k : Nat) (h : createCheck s k = .ok) : s.tomb k = false := by
   unfold createCheck at h
   cases ht : s.tomb k
   · rfl
-  · simp [ht] at h
+  · simp [ht, recheck_on] at h
 
 theorem good_createFetched (s : St) (k : Nat) (h : Inv s) : Good s (createFetched s k).1 := by
   unfold createFetched
@@ -303,6 +307,7 @@ theorem good_step (s : St) (op : Op) (h : Inv s) : Good s (step s op).1 := by
   | head k => exact good_stepHead s k h
   | run => exact good_stepRun s h
   | restart v => exact good_stepRestart s v h
+  | crash k v => exact good_stepCrash s k v h
   | deliver v => exact good_applyView s v h
   | del k snap v => exact good_stepDel s k snap v h
   | record r => exact good_recs s _ h
@@ -316,7 +321,7 @@ theorem createFetched_tomb (s : St) (k : Nat) (h : s.tomb k = true) :
   unfold createFetched
   split
   · simp
-  · simp [createCheck, h]
+  · simp [createCheck, h, recheck_on]
 
 theorem stepPut_ok (s : St) (k : Nat) (h : (stepPut s k).2 = .ok) :
     (stepPut s k).1 = { createTx s k with live := upd (createTx s k).live k true } := by
@@ -611,13 +616,125 @@ theorem both_stepRun (s : St) (h : Both s) : Both (stepRun s) := by
   exact ⟨((good_deleteOne s k hs.1).trans (good_deleteChildren _ k (good_deleteOne s k hs.1).1)).1,
          invC_runUnit s k hs.1 hs.2⟩
 
-theorem both_stepRestart (s : St) (v : Option View) (h : Both s) : Both (stepRestart s v).1 := by
+/-! ### restart re-establishes `J` by itself (orphan scan), whatever a crash left behind -/
+
+/-- what `deletionstate.Run` guarantees of the reloaded mirror -/
+def M2 (s : St) : Prop := ∀ p, s.entry p = true → s.status p = 2 → s.mirror p = 2
+
+/-- `J` for one child -/
+def Jc (s : St) (c : Nat) : Prop :=
+  ∀ p, s.parent c = some p → s.entry c = true → s.bound c = true → s.entry p = true → s.status p = 2 → 1 ≤ s.status c
+
+/-- `InvC` without `J` -/
+structure InvK (s : St) : Prop where
+  wf : ∀ a b, s.parent a = some b → s.parent b = none
+  K : ∀ p, s.parent p = none → s.entry p = true → 1 ≤ s.status p → s.mirror p ≠ 0
+  mle : ∀ k, s.mirror k ≤ 2
+
+theorem InvC.toK {s : St} (h : InvC s) : InvK s := ⟨h.wf, h.K, h.mle⟩
+
+theorem invK_deleteOne (s : St) (k : Nat) (h : InvC s) : InvK (deleteOne s k) :=
+  ⟨h.wf, (deleteOne_root s k h).2.1, (deleteOne_root s k h).2.2⟩
+
+theorem invK_restartMem (s : St) (h : InvK s) : InvK (restartMem s) ∧ M2 (restartMem s) := by
+  obtain ⟨c1, c3, c4⟩ := h
+  refine ⟨⟨c1, ?_, ?_⟩, ?_⟩
+  · intro p; simp only [restartMem]; grind
+  · intro j; simp only [restartMem]; grind
+  · intro p; simp only [restartMem]; grind
+
+theorem orphanCond_status (s : St) (c : Nat) (h : orphanCond s c = true) : s.status c = 0 := by
+  simp only [orphanCond, Bool.and_eq_true, beq_iff_eq] at h
+  exact h.1.1.1
+
+theorem invK_orphanOne (s : St) (a : Nat) (h : InvK s) : InvK (orphanOne s a) := by
+  obtain ⟨c1, c3, c4⟩ := h
+  unfold orphanOne
+  by_cases hc : orphanCond s a = true
+  · have hz := orphanCond_status s a hc
+    simp only [hc, if_true]
+    refine ⟨c1, ?_, ?_⟩
+    · intro p; simp only [setStatus, upd]; grind
+    · intro j; simp only [setStatus, upd]; grind
+  · simp only [hc]; exact ⟨c1, c3, c4⟩
+
+theorem orphanOne_M2 (s : St) (a : Nat) (h : M2 s) : M2 (orphanOne s a) := by
+  unfold orphanOne
+  by_cases hc : orphanCond s a = true
+  · have hz := orphanCond_status s a hc
+    simp only [hc, if_true]
+    intro p; have := h p; simp only [setStatus, upd]; grind
+  · simp only [hc]; exact h
+
+theorem orphanOne_Jc_stable (s : St) (a c : Nat) (h : Jc s c) : Jc (orphanOne s a) c := by
+  unfold orphanOne
+  by_cases hc : orphanCond s a = true
+  · have hz := orphanCond_status s a hc
+    have hea : s.entry a = true := by
+      simp only [orphanCond, Bool.and_eq_true] at hc; exact hc.1.1.2
+    simp only [hc, if_true]
+    intro p; have := h p; simp only [setStatus, upd]; grind
+  · simp only [hc]; exact h
+
+theorem orphanOne_Jc_self (s : St) (c : Nat) (h : M2 s) : Jc (orphanOne s c) c := by
+  unfold orphanOne
+  by_cases hc : orphanCond s c = true
+  · simp only [hc, if_true]
+    intro p _ _ _ _ _; simp [setStatus, upd]
+  · simp only [hc]
+    show Jc s c
+    intro p hp he hb hep hsp
+    have hm := h p hep hsp
+    have : s.status c ≠ 0 := by
+      intro hz
+      apply hc
+      simp [orphanCond, parentDeleted, hp, he, hb, hm, hz]
+    omega
+
+theorem orphanOne_cat (s : St) (a : Nat) : (orphanOne s a).n = s.n := by
+  unfold orphanOne; split <;> rfl
+
+theorem orphanFold : ∀ (l : List Nat) (s : St), M2 s → InvK s →
+    let s' := l.foldl orphanOne s
+    M2 s' ∧ InvK s' ∧ (∀ c, Jc s c → Jc s' c) ∧ (∀ c ∈ l, Jc s' c) ∧ s'.n = s.n
+  | [], s, hm, hk => ⟨hm, hk, fun _ h => h, by simp, rfl⟩
+  | a :: l, s, hm, hk => by
+    have ih := orphanFold l (orphanOne s a) (orphanOne_M2 s a hm) (invK_orphanOne s a hk)
+    simp only [List.foldl] at ih ⊢
+    obtain ⟨i1, i2, i3, i4, i5⟩ := ih
+    refine ⟨i1, i2, fun c h => i3 c (orphanOne_Jc_stable s a c h), ?_, by rw [i5, orphanOne_cat]⟩
+    intro c hc
+    rcases List.mem_cons.1 hc with e | e
+    · subst e; exact i3 c (orphanOne_Jc_self s c hm)
+    · exact i4 c e
+
+/-- restart from ANY state with a sane mirror bookkeeping (in particular the one a crash inside a worker
+pass leaves) yields the full child invariant -/
+theorem both_restart_of_invK (s : St) (v : Option View) (hi : Inv s) (hk : InvK s) : Both (stepRestart s v).1 := by
   unfold stepRestart
-  have b1 : Both (restartMem s) := ⟨(good_restartMem s h.1).1, invC_restartMem s h.1 h.2⟩
-  have b2 := both_foldl orphanOne (fun s a hs => ⟨(good_orphanOne s a hs.1).1, invC_orphanOne s a hs.1 hs.2⟩)
-    (List.range s.n) _ b1
-  have b3 := both_applyView _ v b2
+  have g1 := good_restartMem s hi
+  obtain ⟨k1, m1⟩ := invK_restartMem s hk
+  have g2 := good_foldl orphanOne good_orphanOne (List.range s.n) _ g1.1
+  have f := orphanFold (List.range s.n) (restartMem s) m1 k1
+  simp only at f
+  obtain ⟨_, f2, _, f4, f5⟩ := f
+  have c2 : InvC ((List.range s.n).foldl orphanOne (restartMem s)) := by
+    refine ⟨f2.wf, ?_, f2.K, f2.mle⟩
+    intro c p hc
+    have hc' : c ∈ List.range s.n := by
+      rw [f5] at hc; exact List.mem_range.2 hc
+    exact f4 c hc' p
+  have b3 := both_applyView _ v ⟨g2.1, c2⟩
   exact ⟨(good_fillDiff _ b3.1).1, invC_same _ _ b3.2 rfl rfl rfl rfl rfl rfl⟩
+
+theorem both_stepRestart (s : St) (v : Option View) (h : Both s) : Both (stepRestart s v).1 :=
+  both_restart_of_invK s v h.1 h.2.toK
+
+theorem both_stepCrash (s : St) (k : Nat) (v : Option View) (h : Both s) : Both (stepCrash s k v).1 := by
+  unfold stepCrash
+  split
+  · exact both_restart_of_invK _ v (good_deleteOne s k h.1).1 (invK_deleteOne s k h.2)
+  · exact h
 
 theorem both_step (s : St) (op : Op) (h : Both s) : Both (step s op).1 := by
   cases op with
@@ -654,6 +771,7 @@ theorem both_step (s : St) (op : Op) (h : Both s) : Both (step s op).1 := by
     · exact g
   | run => exact both_stepRun s h
   | restart v => exact both_stepRestart s v h
+  | crash k v => exact both_stepCrash s k v h
   | deliver v => exact both_applyView s v h
   | del k snap v =>
     refine ⟨(good_stepDel s k snap v h.1).1, ?_⟩
